@@ -168,6 +168,15 @@ def run(c, facts, tier):
         fldname = "vars" if okd else None
         pushed = {fld for meth in ALLOC for p in mgr.paths(facts, M, meth) for fld, _, _, _ in p.pushes if fld not in ("fini", "init")}
         c.ob("C11.scope", dk, "definitions are the pushed bindings in creation order", okd and pushed <= {fldname}, "definitions() joins the insertion-ordered Vec %s; bindings are pushed to %s" % (vars_paths, sorted(pushed)))
+    # C11.identity: a reference reaches "the printer created for that very destination" only if the printer bound to the name
+    # carries, as its frame tag, the number its own name and its table entry carry — a tag rendered from a converted, truncated or
+    # later value binds the name to a printer that announces another destination (decision shared with C10.one-index)
+    from . import c10 as _c10
+
+    fr_, _pl = _c10.framed_manager(facts)
+    if fr_:
+        for site_, inst_, ok_, det_, nt_ in _c10.one_index(facts, fr_):
+            c.ob("C11.identity", site_, inst_, ok_, det_, nontrivial=nt_)
     # skeleton: definitions inside let*
     sk = emit.skeleton(facts)
     toks = sk["tokens"] if sk and "tokens" in sk else emit.scheme_tokens(sk["text"]) if sk and "text" in sk else []
